@@ -162,3 +162,59 @@ func H_C10_sameErrorAgain() {
 	vfAssert(outs[0] == outs[1] && outs[1] == outs[2], "... and the same bytes")
 	vfAssert(!hxContains(outs[1], "s3cr3t") && !hxContains(outs[2], "s3cr3t"), "an unexported field is never rendered")
 }
+
+// H_C10_sequences (thorough): histories of four executions on one goroutine drawn from a
+// pool of 13 templates (the ten state-pushing templates above and three probes), each of
+// which fails at its symbolic point or not: C (on a fresh pool: the baseline), then A, then
+// B, then C again with the same inputs - the second C yields the same bytes and the same
+// error as the first, whatever A and B were and however they ended.
+//
+//gosym:reach compared
+//gosym:thorough-only
+//gosym:opts maxpaths=400000 wall=1500
+func H_C10_sequences() {
+	pool := append([]string{}, c10First...)
+	pool = append(pool,
+		`P[{{ . }}|{{ isset(x) }}|{{ yield content }}|{{ isset(r) }}]`,
+		`{{ import "/lib.jet" }}Q[{{ yield wrap() content }}{{ . }}{{ isset(x) }}{{ end }}]{{ mayFail() }}tail`,
+		`R{{ range i, v := r }}{{ i }}{{ v }}{{ . }}{{ end }}{{ include "/inc.jet" }}|{{ isset(x) }}`,
+	)
+	files := []string{
+		"/lib.jet", `{{ block wrap() }}<{{ yield content }}>{{ end }}{{ block wrapf() }}<{{ yield content }}{{ mayFail() }}>{{ end }}`,
+		"/inc.jet", `{{ x := "old" }}{{ mayFail() }}`,
+	}
+	for k, src := range pool {
+		files = append(files, "/t"+ndItoa(k)+".jet", src)
+	}
+	set := hxSet(nil, files...)
+	exec := func(k int, fails bool, data interface{}) (string, bool) {
+		t, err := set.GetTemplate("/t" + ndItoa(k) + ".jet")
+		if err != nil {
+			vfAssert(false, "template parses")
+			return "", true
+		}
+		vars := make(VarMap)
+		vars.Set("r", []string{"oe"})
+		vars.SetFunc("fail", hxFail)
+		vars.SetFunc("mayFail", func(a Arguments) (v reflect.Value) {
+			if fails {
+				panic(hxErr{"mayFail"})
+			}
+			return valueBoolTRUE
+		})
+		var sink bytes.Buffer
+		e := t.Execute(&sink, vars, data)
+		return sink.String(), e != nil
+	}
+	c, fc := ndChoice("c", len(pool)), ndBool("failsC")
+	a, fa := ndChoice("a", len(pool)), ndBool("failsA")
+	b, fb := ndChoice("b", len(pool)), ndBool("failsB")
+	o1, e1 := exec(c, fc, "cdata")
+	exec(a, fa, "adata")
+	exec(b, fb, "bdata")
+	o2, e2 := exec(c, fc, "cdata")
+	vfReach("compared")
+	vfNote(o2)
+	vfAssert(o1 == o2, "same bytes whatever ran before")
+	vfAssert(e1 == e2, "same error whatever ran before")
+}
